@@ -10,6 +10,7 @@ pkgs_of() {
     q)    echo "./internal/containers/mpmc ./internal/containers/mpsc" ;;
     pipe) echo "./internal/containers/... ./internal/listobjects/pipeline ./internal/listobjects/pipeline/internal/..." ;;
     iter) echo "./pkg/storage/storagewrappers/sharediterator" ;;
+    red)  echo "./internal/graph ./internal/concurrency github.com/sourcegraph/conc github.com/sourcegraph/conc/pool github.com/sourcegraph/conc/panics" ;;
     *) return 1 ;;
   esac
 }
@@ -18,6 +19,7 @@ main_of() {
     q)    echo ./internal/verifh/cmd/q ;;
     pipe) echo ./internal/verifh/cmd/pipe ;;
     iter) echo ./internal/verifh/cmd/iter ;;
+    red)  echo ./internal/verifh/cmd/red ;;
   esac
 }
 if [ "${1:-}" = "--is-variant" ]; then pkgs_of "$2" >/dev/null 2>&1; exit $?; fi
@@ -31,6 +33,35 @@ gen=.build/gen-$v.$$
 rm -rf "$gen"; mkdir -p "$gen"
 flags=""; [ "$v" = iter ] && flags="-time"
 (cd "$REPO" && "$VERIF_ROOT/.build/bin/vgen" $flags -dir "$REPO" -out "$VERIF_ROOT/$gen" ${VERIF_EXTRA_OVERLAY:+-overlay "$VERIF_EXTRA_OVERLAY"} $pkgs)
+# Files beneath GOMODCACHE cannot be overlaid: instrumented third-party packages are materialised as a
+# copy of their module (rewritten files copied over) and wired in with a replace directive in the
+# per-invocation modfile.
+python3 - "$gen" "$VERIF_MODFILE" <<'PY'
+import json, os, shutil, subprocess, sys, re
+gen, modfile = sys.argv[1], sys.argv[2]
+ov = json.load(open(os.path.join(gen, "overlay.json")))
+cache = subprocess.run(["go", "env", "GOMODCACHE"], capture_output=True, text=True).stdout.strip()
+mods = {}
+for src in list(ov["Replace"]):
+    if src.startswith(cache + "/"):
+        rel = src[len(cache) + 1:]
+        m = re.match(r"(.+?@v[^/]+)/(.*)", rel)
+        moddir, inner = m.group(1), m.group(2)
+        dst = os.path.join(os.path.abspath(gen), "mod", moddir.replace("/", "_"))
+        if moddir not in mods:
+            shutil.copytree(os.path.join(cache, moddir), dst)
+            for d, _, fs in os.walk(dst):
+                os.chmod(d, 0o755)
+                for f in fs:
+                    os.chmod(os.path.join(d, f), 0o644)
+            mods[moddir] = dst
+        shutil.copyfile(ov["Replace"][src], os.path.join(dst, inner))
+        del ov["Replace"][src]
+json.dump(ov, open(os.path.join(gen, "overlay.json"), "w"), indent=1)
+for moddir, dst in mods.items():
+    path = moddir.rsplit("@", 1)[0]
+    subprocess.check_call(["go", "mod", "edit", "-replace=" + path + "=" + dst, modfile])
+PY
 python3 tools/mkoverlay.py "$gen/ov.json" ${VERIF_EXTRA_OVERLAY:+--merge "$VERIF_EXTRA_OVERLAY"} --merge "$gen/overlay.json"
 (cd "$REPO" && go build -modfile="$VERIF_MODFILE" -tags verif -overlay "$VERIF_ROOT/$gen/ov.json" -o "$VERIF_ROOT/.build/bin/$v" $(main_of "$v"))
 if [ "$v" = q ] && [ "${VERIF_TIER:-quick}" = thorough -o -n "${VERIF_BUILD_RACE:-}" ]; then
